@@ -39,6 +39,7 @@ Definition op_ok (o : op) : Prop :=
   uniform_all o /\
   match o_kind o with
   | OFind | OFirst => query_shape_ok (o_shape o)
+  | OCreateInBatches _ => False      (* CreateInBatches: tied by the correspondence and the spec half only *)
   | _ => goodk (o_shape o) (rkeys (o_recs o)) /\ assocs_ok (op_cx o (o_skip o) DSelf) (o_assocs o)
   end.
 
@@ -54,6 +55,7 @@ Definition op_sched (o : op) : list (list hev) :=
   | OUpdateColumn => cu_sched (op_cx o true (upd_dest o)) PBeforeUpdate PAfterUpdate tags a
   | ODelete => del_sched (op_cx o (o_skip o) DSelf) tags
   | OFind | OFirst => [ph (op_cx o (o_skip o) DSelf) PAfterFind (loaded (op_cx o (o_skip o) DSelf) (o_limit o) (o_seed o))]
+  | OCreateInBatches _ => []
   end.
 
 (* each applicable hook once per record, phase by phase in the documented order *)
@@ -97,7 +99,7 @@ Lemma run_body_step : forall o s, op_ok o -> is_query o = false -> keys s = rkey
 Proof.
   intros o s (U & OK) NQ K. unfold is_query in NQ. unfold run_body, op_sched.
   assert (TG : map fst (keys s) = map m_tag (o_recs o)) by (rewrite K; apply tags_rkeys).
-  destruct (o_kind o) eqn:KD; try discriminate; destruct OK as (G & AO); rewrite <- K in G.
+  destruct (o_kind o) eqn:KD; try discriminate; try contradiction; destruct OK as (G & AO); rewrite <- K in G.
   - (* Create *)
     rewrite create_pipeline_eq, <- TG.
     apply (cu_body_step (op_cx o (o_skip o) DSelf)); try assumption; try apply U.
@@ -248,6 +250,26 @@ Proof.
   cbn [fold_left]. rewrite IH by exact H. apply run_cb_skip_hooks. exact H.
 Qed.
 
+Lemma run_batches_skip_hooks : forall o chs s, o_skip o = true ->
+  hooks_of (s_tr (run_batches o chs s)) = hooks_of (s_tr s).
+Proof.
+  intros o chs. induction chs as [|ch r IH]; intros s H; [reflexivity|].
+  cbn [run_batches].
+  assert (B : hooks_of (s_tr (run_batch o ch s)) = hooks_of (s_tr s)).
+  { unfold run_batch. cbn [s_tr set_recs]. rewrite run_pipeline_skip_hooks by (cbn; exact H). reflexivity. }
+  destruct (is_nil (s_err (run_batch o ch s))); [rewrite IH by exact H|]; exact B.
+Qed.
+
+Lemma run_create_in_batches_skip_hooks : forall o b s, o_skip o = true ->
+  hooks_of (s_tr (run_create_in_batches o b s)) = hooks_of (s_tr s).
+Proof.
+  intros o b s H. unfold run_create_in_batches.
+  match goal with |- context [if ?c then _ else _] => destruct c end; [apply run_batches_skip_hooks; exact H|].
+  match goal with |- context [run_batches o ?chs ?s0] =>
+    pose proof (run_batches_skip_hooks o chs s0 H) as B; destruct (is_nil (s_err (run_batches o chs s0))) end;
+    cbn [s_tr] in *; rewrite hooks_of_app, B, hooks_of_app; cbn; rewrite !app_nil_r; reflexivity.
+Qed.
+
 Theorem run_skip : forall o,
   o_skip o = true \/ o_kind o = OUpdateColumn -> hooks_of (s_tr (run o)) = [].
 Proof.
@@ -264,5 +286,6 @@ Proof.
       match goal with |- context [if ?b then _ else _] => destruct b end;
         rewrite ?run_pipeline_skip_hooks by (try apply SK; reflexivity); exact H0.
     + rewrite run_pipeline_skip_hooks by reflexivity. exact H0.
+    + rewrite run_create_in_batches_skip_hooks by exact H. exact H0.
   - rewrite H. rewrite run_pipeline_skip_hooks by reflexivity. exact H0.
 Qed.
